@@ -198,6 +198,66 @@ def run_case(desc, seed):
                         viol.append({"sig": f"C20:tree-table:bond-not-minimum:zero-coefficient-term:{algo}",
                                      "msg": f"linear tree, terms {table} + a zero-coefficient term {extra}: bond of node {cut} has dimension {tb[cut]}, minimum cover of the non-zero terms {mc}; bond dims {tb}"})
                         break
+    # the public construction routine called directly with the rows of the table in another order (its own docstring example is not sorted):
+    # the order of the terms is not part of the operator, the bonds must stay at the minimum cover
+    if len(uniq) >= 2:
+        for algo in ALGOS:
+            for oname, perm in (("reversed", list(range(len(uniq)))[::-1]), ("rotated", list(range(1, len(uniq))) + [0])):
+                try:
+                    model = Model(list(fam.basis), [])
+                    terms2 = model.check_operator_terms([fam.term(r, f) for r, f in zip(uniq, [1.0, 0.5, -0.7, 1.3])])
+                    tab, prim, fac = sm._terms_to_table(model, terms2, 0)
+                    tab, fac = np.asarray(tab)[perm], np.asarray(fac)[perm]
+                    out = sm.construct_symbolic_mpo(tab, prim, fac, algo=algo)
+                    bd = [1] + [mo.shape[1] for mo in out[0]]
+                except Exception as e:
+                    viol.append({"sig": f"C20:direct-table:exception:{type(e).__name__}", "msg": f"construct_symbolic_mpo(table rows {oname}, algo={algo}) raised {e!r}"})
+                    continue
+                for cut in range(1, n):
+                    left = sorted(set(r[:cut] for r in uniq))
+                    right = sorted(set(r[cut:] for r in uniq))
+                    masks = [0] * len(left)
+                    for r in uniq:
+                        masks[left.index(r[:cut])] |= 1 << right.index(r[cut:])
+                    mc = G.min_cover_size(masks)
+                    if bd[cut] != mc:
+                        viol.append({"sig": f"C20:direct-table:bond-not-minimum:{algo}",
+                                     "msg": f"construct_symbolic_mpo with the rows of {uniq} in {oname} order: bond dim {bd[cut]} at cut {cut} != minimum cover {mc}; bond dims {bd}"})
+                        break
+    # the same table as a tree operator on BRANCHING trees (a node with two or more children; the terms in the listed order and reversed):
+    # every tree edge is a cut (subtree | rest), its bond must be the minimum cover of that cut's incidence matrix
+    if n >= 3:
+        from mc import trees as TR
+        from renormalizer.tn import TTNO
+        shapes = [[-1] + [0] * (n - 1)] + ([[-1, 0, 0, 1]] if n == 4 else [])
+        for parent in shapes:
+            groups = [[i] for i in range(n)]
+            sub = TR.tree_edges_bipartitions(parent, [tuple(g) for g in groups], n)
+            for algo in ALGOS:
+                for oname, order_ in (("listed", list(range(len(table)))), ("reversed", list(range(len(table)))[::-1])):
+                    try:
+                        tree = TR.build_basis_tree(parent, groups, list(fam.basis))
+                        terms1 = [fam.term(table[i], factors[i]) for i in order_]
+                        tb = list(TTNO(tree, terms1, algo=algo).bond_dims)
+                    except Exception as e:
+                        viol.append({"sig": f"C20:tree-table:exception:{type(e).__name__}", "msg": f"TTNO(tree {parent}, terms in {oname} order, algo={algo}) raised {e!r}"})
+                        continue
+                    for node, inside in sub.items():
+                        inside = sorted(inside)
+                        if not inside or len(inside) == n:
+                            continue
+                        outside = [i for i in range(n) if i not in inside]
+                        left = sorted(set(tuple(r[i] for i in inside) for r in uniq))
+                        right = sorted(set(tuple(r[i] for i in outside) for r in uniq))
+                        masks = [0] * len(left)
+                        for r in uniq:
+                            masks[left.index(tuple(r[i] for i in inside))] |= 1 << right.index(tuple(r[i] for i in outside))
+                        mc = G.min_cover_size(masks)
+                        if tb[node] != mc:
+                            viol.append({"sig": f"C20:tree-table:bond-not-minimum:branching-tree:{algo}",
+                                         "msg": f"tree {parent}, terms {[table[i] for i in order_]} ({oname} order): bond above node {node} (subtree sites {inside}) has dimension {tb[node]}, "
+                                                f"minimum cover of the {len(left)}x{len(right)} incidence matrix is {mc}; bond dims {tb}"})
+                            break
     # graphs seen at the call boundary
     for adj, algo in recorded:
         nV = max((max(a) for a in adj if a), default=-1) + 1
